@@ -269,6 +269,31 @@ reg('C17', 'model_checking',
     'real objects', 'E2-history-bfs')
 
 
+reg('C01', 'model_checking',
+    'Every CPU neighbour algorithm (12 classes, 67 knob variants quick / '
+    'full knob product thorough: H, levels, leaf size, tiny hash tables, '
+    'asymmetric, sort_gids, cache, fixed_h) on ALL multisets of <=k '
+    'particles of a half-cell lattice (points on cell faces, pairs exactly '
+    'at the cut-off, coincident, collinear/coplanar, empty and '
+    'single-particle arrays; 1-D 9 points k<=4, 2-D 4x4 k<=3 and 3x3 k<=4, '
+    '3-D 3x3x3 k<=3; quick takes one residue class of the largest k) x '
+    'smoothing-length patterns (h, 3h, h/2; thorough h/8 and 50h) x 4 '
+    'array splits x affine images (far from the origin, negative, 2^-10, '
+    '2^10), all (dst,src) pairs, cache filled lazily and by '
+    'find_all_neighbors; all length-2 update histories (move / set h / '
+    'append / remove, then update) on one long-lived object; cache filled '
+    'with 2-16 threads. Oracle: NumPy brute force with a rounding band at '
+    'the cut-off. Each (algorithm, chunk) runs in its own worker so that '
+    'native crashes are attributed, recorded as violations and skipped.',
+    'Trusted: the brute-force oracle; documented protocol set_context() '
+    'before queries. OpenMP interleavings are not enumerated (thread counts '
+    'are). 27 recorded findings (z-order family cross-array search and '
+    'empty-array crashes, octree recursion on coincident points, '
+    'ExtendedZOrder thread crashes) are listed in known_findings.json.',
+    'bounded-exhaustive small-scope enumeration of configurations and '
+    'update histories on the real classes', 'E2-history-bfs')
+
+
 def main():
     props = [json.loads(l) for l in open(os.path.join(V, 'properties.jsonl'))]
     checks = []
